@@ -36,8 +36,8 @@ PROPS = {
     "C07": dict(jobs=ANY, obl=lambda o: any(s in o["name"] for s in ("_parent recorded", "operator recorded", "label", "recorded ancestors", "/value/", "attach/")),
                 bounded="c07", level="other", design="4 C07",
                 technique="P: contracts of the operators pin (left_parent, right_parent, operator) and value = op(operands) for every method, and every update rule attaches a labelled value; B: re-evaluation of every node of every explanation tree of computed systems with pint"),
-    "C03": dict(jobs=upd("avg", "compute_hourly_occurrences", "compute_hourly_data_exchange", "sum_calculated_attribute", "update_nb_usage_journeys_in_parallel",
-                         "update_devices_energy|", "update_hour_by_hour", "update_duration"),
+    "C03": dict(jobs=lambda j: "return_shifted_hourly_quantities" in j or upd("avg", "compute_hourly_occurrences", "compute_hourly_data_exchange", "sum_calculated_attribute", "update_nb_usage_journeys_in_parallel",
+                         "update_devices_energy|", "update_hour_by_hour", "update_duration", "_per_usage_pattern")(j),
                 obl=ALL_OBL, bounded="c03", level="proof", design="4 C03",
                 technique="contracts with ghost recursive sums and loop invariants on the real job / usage-pattern / server update functions; conservation totals proved by induction inside the loop invariants; z3"),
     "C04": dict(jobs=upd("update_available_", "update_raw_nb_of_instances", "update_nb_of_instances", "storage_needed", "storage_freed",
@@ -45,7 +45,7 @@ PROPS = {
                 obl=ALL_OBL, bounded="c04", level="other", design="4 C04",
                 technique="contracts on the sizing functions of ServerBase and Storage (raise-iff, nb >= raw, ceilings, active <= provisioned, same-index preconditions of positional operations); floating-point clause and window lemma by bounded twin"),
     "C02": dict(jobs=lambda j: j.startswith("lookup:") or upd("update_energy_footprint", "update_instances_fabrication_footprint", "update_devices_energy_footprint", "update_total_footprint",
-                         "System", "Network")(j),
+                         "System", "Network", "_per_usage_pattern")(j),
                 obl=ALL_OBL, bounded="c02", level="other", design="4 C02",
                 technique="contracts: footprint = energy x the carbon intensity that applies (per usage pattern country for the network, nested ghost folds), fabrication formula, system total = every server, storage, network and usage pattern once (System.update_total_footprint); the derived look-ups those contracts iterate (System.servers / storages / networks, Network.jobs, ServerBase.jobs, Storage.jobs, JobBase.usage_patterns ... 22 properties) proved from their real source to list exactly the objects of their defining relation, each once; bounded twin over sharing topologies"),
     "C10": dict(jobs=lambda j: j.startswith("update:") or j == "avg", obl=lambda o: o["kind"] in ("post", "pre", "libpre") and "cover" not in o["name"],
